@@ -1,60 +1,186 @@
 import ComposeVerif.Model.Reset
 import ComposeVerif.Spec.Override
 /-!
-# C04 — statements of the property that the unchanged tree falsifies (concrete witnesses)
+# C04 — statements of the property that the tree falsified **before the round-2 `fix:` commits** (concrete witnesses)
 
-Each witness is replayed on the real code by the oracle (corpus/C04/finding-*.json, findings/C04.txt).
-`Val` has no decidable equality instance, so the witnesses are closed by kernel evaluation (`rfl`) or `decide`.
+The models in `Model/` follow the repaired code.  What the code did before each repair is kept here as a small
+pre-fix definition (namespace `PreFix`) together with the witness that made the full-strength statement false; the
+corresponding inputs stay in `corpus/C04/` (they now pass) and `findings/C04.txt` records them as `fixed:`.
+`Val` has no decidable equality instance, so witnesses are closed by kernel evaluation (`rfl`) or `decide`.
 -/
 namespace CV.C04.Neg
 open CV CV.Val CV.Merge CV.Unicity CV.Override
 
-/-- `rule_table_matches_spec` at full strength is false: `volumes.*.labels` is merged to a sequence but has **no**
-unicity indexer (`override.unique` lacks the row that `networks.*.labels` has) -/
-theorem not_rule_table_matches_spec : ¬ (∀ r ∈ expected, actual r.1 = r.2) := by decide
+namespace PreFix
 
-theorem volume_labels_no_indexer : ruleAt ["volumes", "v", "labels"] = some .toSeq ∧ indexerAt ["volumes", "v", "labels"] = none := by
+/-! ### `override.unique` without the `volumes.*.labels` row (repaired by "fix: volume labels are unique by key …") -/
+
+def unique : List (List String × String) := CV.Gen.unique.filter fun r => decide (r.1 ≠ ["volumes", "*", "labels"])
+
+/-- with the pre-fix table `rule_table_matches_spec` is false: volume labels are merged to a sequence but never de-duplicated -/
+theorem not_rule_table_matches_spec : ¬ (∀ r ∈ expected, (ruleAt r.1, indexerAtIn unique r.1) = r.2) := by decide
+
+theorem volume_labels_no_indexer : ruleAt ["volumes", "v", "labels"] = some .toSeq ∧ indexerAtIn unique ["volumes", "v", "labels"] = none := by
   decide
 
-/-- consequence: a volume label repeated by the override stays twice after merge + unicity (the schema then rejects
-the model: "array items must be unique") — `kv_later_wins` does not apply at this path -/
+/-- … so the label repeated by the override stayed twice in the merged list (and the schema rejected the model) -/
 theorem volume_label_repeated :
-    (merge (.map [("volumes", .map [("v", .map [("labels", .seq [.str "A=1"])])])])
-           (.map [("volumes", .map [("v", .map [("labels", .map [("A", .int 1)])])])])).bind enforceTop
-      = .ok (.map [("volumes", .map [("v", .map [("labels", .seq [.str "A=1", .str "A=1"])])])]) := by rfl
+    mergeYaml 1 (.seq [.str "A=1"]) (.map [("A", .int 1)]) ["volumes", "v", "labels"] = .ok (.seq [.str "A=1", .str "A=1"]) := by rfl
 
-/-- the same input under `networks` is de-duplicated -/
-theorem network_label_repeated_ok :
-    (merge (.map [("networks", .map [("n", .map [("labels", .seq [.str "A=1"])])])])
-           (.map [("networks", .map [("n", .map [("labels", .map [("A", .int 1)])])])])).bind enforceTop
-      = .ok (.map [("networks", .map [("n", .map [("labels", .seq [.str "A=1"])])])]) := by rfl
+/-! ### `portIndexer` with `%s` / `%d` (repaired by "fix: portIndexer renders published/target with %v") -/
 
-/-- `port_key_spelling_independent` is false: the same port with `published` written as an integer and as a string
-gets two different index keys, so the two entries never collide (portIndexer formats `published` with `%s`) -/
-theorem port_key_depends_on_spelling :
-    index .port (.map [("target", .int 80), ("published", .int 8080)]) = .ok "0.0.0.0:%!s(int=8080):80/tcp" ∧
-    index .port (.map [("target", .int 80), ("published", .str "8080")]) = .ok "0.0.0.0:8080:80/tcp" := by
+def portKey (kvs : KVs) : String :=
+  sprintArg 's' true ((lookup "host_ip" kvs).getD (.str "0.0.0.0")) ++ ":" ++ sprintArg 's' true ((lookup "published" kvs).getD .null) ++ ":" ++
+    sprintArg 'd' true ((lookup "target" kvs).getD .null) ++ "/" ++ sprintArg 's' true ((lookup "protocol" kvs).getD (.str "tcp"))
+
+/-- `port_key_spelling_independent` was false: the same port with `published` written as an integer and as a string
+got two different index keys, so the two entries never collided -/
+theorem port_key_depended_on_spelling :
+    portKey [("target", .int 80), ("published", .int 8080)] = "0.0.0.0:%!s(int=8080):80/tcp" ∧
+    portKey [("target", .int 80), ("published", .str "8080")] = "0.0.0.0:8080:80/tcp" := by
   constructor <;> rfl
 
-theorem port_entries_not_merged :
-    (mergeYaml 1 (.seq [.map [("target", .int 80), ("published", .int 8080)]]) (.seq [.map [("target", .int 80), ("published", .str "8080"), ("mode", .str "host")]])
-        ["services", "s", "ports"]).bind (fun m => enforce m ["services", "s", "ports"])
-      = .ok (.seq [.map [("target", .int 80), ("published", .int 8080)], .map [("target", .int 80), ("published", .str "8080"), ("mode", .str "host")]]) := by rfl
+/-! ### `mergeIPAMConfig` before its rewrite (repaired by "fix: mergeIPAMConfig merges ipam pools by subnet …") -/
 
-/-- "anything a later file does not mention is preserved" is false for ipam pools: base `[A]` + override `[B]` = `[B]` -/
+/-- the `[]any` branch of `convertIntoMapping` -/
+def listIntoMap0 (dflt : Val) : List Val → KVs → Out KVs
+  | [], acc => .ok acc
+  | .str s :: r, acc => listIntoMap0 dflt r (insert s dflt acc)
+  | _ :: _, _ => .panic "override.convertIntoMapping"
+
+/-- `convertIntoMapping(a, defaultValue)`; `ok none` = Go `nil` map. `dflt` is the value stored per key
+(`nil`, or a fresh copy of the default mapping) -/
+def intoMap (dflt : Val) : Val → Out (Option KVs)
+  | .map kvs => .ok (some kvs)
+  | .seq xs => (listIntoMap0 dflt xs []).bind fun m => .ok (some m)
+  | _ => .ok none
+
+/-- Go `==` on two interface values; `none` = run-time panic (both operands of the same uncomparable type) -/
+def ifaceEq : Val → Val → Option Bool
+  | .seq _, .seq _ => none
+  | .map _, .map _ => none
+  | .null, .null => some true
+  | .bool a, .bool b => some (a == b)
+  | .int a, .int b => some (a == b)
+  | .float a, .float b => some (a == b)
+  | .str a, .str b => some (a == b)
+  | _, _ => some false
+
+/-- `m["subnet"]` on a possibly-nil map -/
+def subnetOf (m : Option KVs) : Val :=
+  match m with
+  | none => .null
+  | some kvs => (lookup "subnet" kvs).getD .null
+
+/-- state of `mergeIPAMConfig`: `ipamConfigs` (entry `none` = the very map object `right`, which later
+merges keep mutating) and the current `right` (`none` = nil map) -/
+structure IpamSt where
+  configs : List (Option KVs)
+  right : Option KVs
+
+def IpamSt.entry (st : IpamSt) (e : Option KVs) : KVs :=
+  match e with
+  | some m => m
+  | none => st.right.getD []
+
+/-- `slices.IndexFunc(ipamConfigs, func(a) bool { return a["subnet"] == s })`; outer `none` = panic -/
+def ipamIndex (st : IpamSt) (s : Val) : List (Option KVs) → Nat → Option (Option Nat)
+  | [], _ => some none
+  | e :: r, i =>
+    match ifaceEq ((lookup "subnet" (st.entry e)).getD .null) s with
+    | none => none
+    | some true => some (some i)
+    | some false => ipamIndex st s r (i + 1)
+
+def mergeOpt0 (mk : KVs → KVs → TPath → Out KVs) (p : TPath) : Option KVs → Option KVs → Out (Option KVs)
+  | some a, some b => (mk a b p).bind fun m => .ok (some m)
+  | some a, none => .ok (some a)
+  | none, some (_ :: _) => .panic "override.mergeMappings"
+  | none, _ => .ok none
+
+/-- inner loop of `mergeIPAMConfig`: `for _, override := range o.([]any)` -/
+def ipamInnerWith (mk : KVs → KVs → TPath → Out KVs) : List Val → IpamSt → TPath → Out IpamSt
+  | [], st, _ => .ok st
+  | ov :: rest, st, p =>
+    (intoMap .null ov).bind fun left =>
+    match ifaceEq (subnetOf left) (subnetOf st.right) with
+    | none => .panic "override.mergeIPAMConfig"
+    | some same =>
+      let doMerge : Unit → Out IpamSt := fun _ =>
+        (match st.right, left with
+          | some a, some b => (mk a b p).bind fun m => .ok (some m)
+          | some a, none => .ok (some a)
+          | none, some (_ :: _) => .panic "override.mergeMappings"
+          | none, _ => .ok none : Out (Option KVs)).bind fun merged =>
+        let st1 : IpamSt := ⟨st.configs, merged⟩
+        -- a nil `right` stays nil; `merged` is the same object as `right` otherwise
+        let entry : Option KVs := match merged with | none => some [] | some _ => none
+        match ipamIndex st1 (subnetOf merged) st1.configs 0 with
+        | none => .panic "override.mergeIPAMConfig"
+        | some (some i) => ipamInnerWith mk rest ⟨listSet st1.configs i entry, merged⟩ p
+        | some none => ipamInnerWith mk rest ⟨st1.configs ++ [entry], merged⟩ p
+      if same then doMerge ()
+      else
+        match ipamIndex st (subnetOf left) st.configs 0 with
+        | none => .panic "override.mergeIPAMConfig"
+        | some none => ipamInnerWith mk rest ⟨st.configs ++ [some (left.getD [])], st.right⟩ p
+        | some (some _) => doMerge ()
+
+/-- outer loop of `mergeIPAMConfig`: `for _, original := range c.([]any)` -/
+def ipamOuterWith (mk : KVs → KVs → TPath → Out KVs) : List Val → Val → IpamSt → TPath → Out Val
+  | [], _, st, _ => .ok (.seq (st.configs.map fun e => .map (st.entry e)))
+  | original :: rest, o, st, p =>
+    (intoMap .null original).bind fun right =>
+    match o with
+    | .seq os =>
+      (ipamInnerWith mk os ⟨st.configs, right⟩ p).bind fun st' =>
+      -- `right` goes out of scope: the entries aliasing it are frozen
+      ipamOuterWith mk rest o ⟨st'.configs.map fun e => some (st'.entry e), none⟩ p
+    | _ => .panic "override.mergeIPAMConfig"
+
+/-- the pre-fix `mergeIPAMConfig` on two sequences of pools -/
+def mergeIPAM (cs : List Val) (o : Val) : Out Val :=
+  ipamOuterWith (mergeKVsWith (mergeYaml 2)) cs o ⟨[], none⟩ ["networks", "n", "ipam", "config"]
+
+/-- "anything a later file does not mention is preserved" was false for ipam pools: base `[A]` + override `[B]` = `[B]` -/
 theorem ipam_base_pool_dropped :
-    mergeYaml 2 (.seq [.map [("subnet", .str "10.0.0.0/24")]]) (.seq [.map [("subnet", .str "10.0.1.0/24")]])
-        ["networks", "n", "ipam", "config"]
+    mergeIPAM [.map [("subnet", .str "10.0.0.0/24")]] (.seq [.map [("subnet", .str "10.0.1.0/24")]])
       = .ok (.seq [.map [("subnet", .str "10.0.1.0/24")]]) := by rfl
 
-/-- with two base pools the pools are merged into one another: base `[A, B]` + override `[A + gateway]` loses `A`'s
-own entry and gives `B`'s fields to subnet `A` -/
+/-- with two base pools the pools were merged into one another -/
 theorem ipam_pools_mixed_up :
-    mergeYaml 2 (.seq [.map [("subnet", .str "A"), ("ip_range", .str "ra")], .map [("subnet", .str "B"), ("ip_range", .str "rb")]])
-        (.seq [.map [("subnet", .str "A"), ("gateway", .str "g")]]) ["networks", "n", "ipam", "config"]
+    mergeIPAM [.map [("subnet", .str "A"), ("ip_range", .str "ra")], .map [("subnet", .str "B"), ("ip_range", .str "rb")]]
+        (.seq [.map [("subnet", .str "A"), ("gateway", .str "g")]])
       = .ok (.seq [.map [("subnet", .str "A"), ("ip_range", .str "rb"), ("gateway", .str "g")]]) := by rfl
 
-/-- quirk kept by the model: `mergeUlimit` merges the override with itself, so a list inside it is doubled -/
+/-- an override config that is not a sequence panicked (C01's `panic@override.mergeIPAMConfig`) -/
+theorem ipam_panicked : mergeIPAM [.map []] (.str "x") = .panic "override.mergeIPAMConfig" := by rfl
+
+end PreFix
+
+/-! ### the same inputs on the repaired model -/
+
+theorem ipam_base_pool_kept :
+    mergeYaml 2 (.seq [.map [("subnet", .str "10.0.0.0/24")]]) (.seq [.map [("subnet", .str "10.0.1.0/24")]])
+        ["networks", "n", "ipam", "config"]
+      = .ok (.seq [.map [("subnet", .str "10.0.0.0/24")], .map [("subnet", .str "10.0.1.0/24")]]) := by rfl
+
+theorem ipam_pools_merged_by_subnet :
+    mergeYaml 2 (.seq [.map [("subnet", .str "A"), ("ip_range", .str "ra")], .map [("subnet", .str "B"), ("ip_range", .str "rb")]])
+        (.seq [.map [("subnet", .str "A"), ("gateway", .str "g")]]) ["networks", "n", "ipam", "config"]
+      = .ok (.seq [.map [("subnet", .str "A"), ("ip_range", .str "ra"), ("gateway", .str "g")], .map [("subnet", .str "B"), ("ip_range", .str "rb")]]) := by rfl
+
+theorem volume_label_deduplicated :
+    (merge (.map [("volumes", .map [("v", .map [("labels", .seq [.str "A=1"])])])])
+           (.map [("volumes", .map [("v", .map [("labels", .map [("A", .int 1)])])])])).bind enforceTop
+      = .ok (.map [("volumes", .map [("v", .map [("labels", .seq [.str "A=1"])])])]) := by rfl
+
+theorem port_entries_merged :
+    (mergeYaml 1 (.seq [.map [("target", .int 80), ("published", .int 8080)]]) (.seq [.map [("target", .int 80), ("published", .str "8080"), ("mode", .str "host")]])
+        ["services", "s", "ports"]).bind (fun m => enforce m ["services", "s", "ports"])
+      = .ok (.seq [.map [("target", .int 80), ("published", .str "8080"), ("mode", .str "host")]]) := by rfl
+
+/-- quirk still in the code and kept by the model: `mergeUlimit` merges the override with itself, so a list inside it is doubled -/
 theorem ulimit_list_doubled :
     mergeYaml 2 (.int 1) (.map [("x", .seq [.int 1])]) ["services", "s", "ulimits", "nofile"] = .ok (.map [("x", .seq [.int 1, .int 1])]) := by rfl
 
